@@ -96,6 +96,13 @@ Proof. exact cusum_drift_needs. Qed.
 
 End C04.
 
+(** exact arithmetic (reals): the running mean of Page-Hinkley is the arithmetic mean of the epoch *)
+From MV Require Import NumLaws RunMean ChangeDet_Exact.
+From Coq Require Import Reals.
+Theorem C04_ph_mean_exact_reals : forall (p : @ph_params NumR) xs, xs <> [] ->
+  p_mean (ph_feed p ph_e0 0 xs) = (sumR xs / IZR (Z.of_nat (length xs)))%R.
+Proof. exact ph_mean_exact. Qed.
+
 Print Assumptions C04_ph_test.
 Print Assumptions C04_ph_local.
 Print Assumptions C04_cusum_test.
@@ -103,3 +110,4 @@ Print Assumptions C04_cusum_estimation.
 Print Assumptions C04_cusum_reset.
 Print Assumptions C04_cusum_clean_slate.
 Print Assumptions C04_cusum_drift_after_burn_in.
+Print Assumptions C04_ph_mean_exact_reals.
